@@ -425,6 +425,7 @@ var Mutants = map[string][]Mutant{
 		{"vertical fonts written as horizontal", "renderers/pdf/writer.go", `w\.writeFonts\(w\.fontsV, true\)`, `w.writeFonts(w.fontsV, false)`, "E5.fontmaps"},
 	},
 	"C19": {
+		{"style element read whatever closed its start tag", "svg.go", `if tt != xml\.StartTagCloseVoidToken \{ // <style/> has no content and no end tag`, "if true {", "E11.svg-style-element"},
 		{"imported dashes left in user units", "svg.go", `svg\.ctx\.Style\.DashOffset, svg\.ctx\.Style\.Dashes = ScaleDash\(1\.0/w, offset, dashes\)`, "svg.ctx.Style.DashOffset, svg.ctx.Style.Dashes = ScaleDash(1.0, offset, dashes)", "E11.svg-dash-units"},
 		{"dasharray through SetDashes resets the dash offset", "svg.go", `svg\.ctx\.Style\.Dashes = svg\.parsePoints\(val\)`, "svg.ctx.SetDashes(0.0, svg.parsePoints(val)...)", "E11.svg-attribute-independence"},
 		{"RotateAbout corrects the translation of an identity receiver only", "util.go", `return m\.Translate\(x, y\)\.Rotate\(rot\)\.Translate\(-x, -y\)`, "m = m.Rotate(rot)\n\tp := m.Dot(Point{x, y})\n\tm[0][2] += x - p.X\n\tm[1][2] += y - p.Y\n\treturn m", "E11."},
